@@ -1024,6 +1024,10 @@ func (interp *Interpreter) cfg(root *node, sc *scope, importPath, pkgName string
 			for t.cat == linkedT {
 				t = t.val
 			}
+			if !isIndexable(t) {
+				err = n.cfgErrorf("invalid operation: cannot index %s", n.child[0].typ.id())
+				break
+			}
 			switch t.cat {
 			case ptrT:
 				n.typ = t.val
@@ -1084,6 +1088,8 @@ func (interp *Interpreter) cfg(root *node, sc *scope, importPath, pkgName string
 					n.gen = nop
 					return
 				}
+				err = n.cfgErrorf("invalid operation: cannot index %s", n.child[0].typ.id())
+				return
 
 			default:
 				n.typ = t.val
@@ -1114,6 +1120,9 @@ func (interp *Interpreter) cfg(root *node, sc *scope, importPath, pkgName string
 				err = n.cfgErrorf("type is not an array, slice, string or map: %v", t.id())
 			}
 
+			if err != nil {
+				break
+			}
 			err = check.index(n.child[1], l)
 
 		case blockStmt:
